@@ -155,6 +155,10 @@ func (node *Node) processUnconfirmedTx(ctx context.Context, tx handlers.TxData) 
 	}
 
 	txState.State.Safe = tx.Safe || newlySafe
+	if txState.State.UnSafe || txState.State.Cancelled {
+		// An existing state that was reported unsafe stays that way.
+		txState.State.Safe = false
+	}
 	if txState.State.MerkleProof == nil {
 		txState.State.UnconfirmedDepth = 1
 	}
